@@ -163,7 +163,7 @@ func shiftRules(c *Ctx) {
 	}
 }
 
-// repetitionRules: R6.4 / R6.17 alone (imported by C08: the first report of a key-emulating axis must reach the thresholds).
+// repetitionRules: R6.4 / R6.17 / R6.21 alone (imported by C07 and C08: the first report of a key-emulating axis must reach the thresholds).
 func repetitionRules(c *Ctx) {
 	dv := newDev(c, "R6.0")
 	if !dv.ok || !dv.need("R6.0", []string{"handleABSEvent"}, []string{"lastAnalogValue"}) {
@@ -171,6 +171,7 @@ func repetitionRules(c *Ctx) {
 	}
 	if paths, err := absPaths(c, dv); err == nil {
 		ruleDedupeKeying(c, dv, paths)
+		ruleNoMappingMemo(c, dv, paths, "R6.21")
 	}
 }
 
@@ -186,6 +187,7 @@ func checkC06(c *Ctx) {
 		ruleCCScaling(c, dv, paths)
 		rulePitchBendArgument(c, dv, paths)
 		ruleDedupeKeying(c, dv, paths)
+		ruleNoMappingMemo(c, dv, paths, "R6.21")
 	}
 	ruleRestValueConstant(c, dv)
 	ruleNormalisation(c, dv, "R6.5")
